@@ -108,7 +108,7 @@ func genC07(t *rapid.T) HistCase {
 
 func execC07(c HistCase) *Failure {
 	st := getStats("C07")
-	maxKinds, maxBinds := 0, 0
+	maxKinds, maxBinds, danglingAuth := 0, 0, 0
 	var total hapcfg.LintStats
 	steps := 0
 	f := histRun(c, func(s *ctlsim.Sim, batch int, infos []ctlsim.StepInfo) *Failure {
@@ -132,6 +132,19 @@ func execC07(c HistCase) *Failure {
 		total.TCPFrontends += ls.TCPFrontends
 		total.LuaAuthRefs += ls.LuaAuthRefs
 		total.FileRefs += ls.FileRefs
+		// `http-request lua.auth-intercept <backend> ...` takes the name as a string that the Lua action resolves per
+		// request: HAProxy loads the configuration even if the name dangles (the request is then denied), so it is
+		// not one of the references of the statement. It is counted, and belongs to the known finding of C01 about the
+		// namespace-wide oauth lookup.
+		kept := issues[:0]
+		for _, is := range issues {
+			if is.Kind == "missing-auth-backend" {
+				danglingAuth++
+				continue
+			}
+			kept = append(kept, is)
+		}
+		issues = kept
 		if len(issues) > 0 {
 			var msgs []string
 			for _, is := range issues {
@@ -159,6 +172,7 @@ func execC07(c HistCase) *Failure {
 	st.Count("refs_authproxy_binds", total.AuthProxyBinds)
 	st.Count("refs_tcp_frontends", total.TCPFrontends)
 	st.Count("refs_lua_auth", total.LuaAuthRefs)
+	st.Count("lua_auth_backend_names_dangling_not_a_load_error", danglingAuth)
 	st.Count("refs_files", total.FileRefs)
 	return f
 }
